@@ -1356,18 +1356,31 @@ class PartialARBF(DiffARBF):
                 Y = Y[:, self.active_dims]
         return super(PartialARBF, self).__call__(X, Y, eval_gradient, get_sub_kernels)
 
+    def _get_inds(self):
+        # hasattr check for back-compatibility
+        if (not hasattr(self, "active_dims")) or (self.active_dims is None):
+            return slice(self.start, None)
+        return self.active_dims
+
+    def diag(self, X):
+        if not np.iterable(self.scale):
+            self.scale = [self.scale] * (self.order + 1)
+        return super(PartialARBF, self).diag(X[:, self._get_inds()])
+
     def k_and_deriv(self, X, Y=None):
         if not np.iterable(self.scale):
             self.scale = [self.scale] * (self.order + 1)
-        if (not hasattr(self, "active_dims")) or (self.active_dims is None):
-            X = X[:, self.start :]
-            if Y is not None:
-                Y = Y[:, self.start :]
-        else:
-            X = X[:, self.active_dims]
-            if Y is not None:
-                Y = Y[:, self.active_dims]
-        return super(PartialARBF, self).k_and_deriv(X, Y)
+        inds = self._get_inds()
+        nfeat = X.shape[1]
+        X = X[:, inds]
+        if Y is not None:
+            Y = Y[:, inds]
+        k, dk_sub = super(PartialARBF, self).k_and_deriv(X, Y)
+        # derivative with respect to all columns of the input,
+        # which is zero for the inactive ones.
+        dk = np.zeros(k.shape + (nfeat,), dtype=dk_sub.dtype)
+        dk[:, :, inds] = dk_sub
+        return k, dk
 
 
 class SingleRBF(RBF):
